@@ -1,6 +1,7 @@
 """C14 — cloning a shape yields a self-contained copy and leaves the source untouched (DESIGN §5 C14)."""
 from facts import is_node, walk, where, show
 import flow
+import report
 import c11
 
 NIF = "nifly::NifFile"
@@ -379,6 +380,47 @@ def run(F, chk):
                               "%s rebuilds %s::%s only for blocks of type %s; clones of %s keep the source model's block numbers in "
                               "that array" % (fn["name"].split("(")[0], owner, m["name"], T, ", ".join(c.split("::")[-1] for c in skipped[:4])))
     chk.floor(R6, 1)
+
+    # ---------------------------------------------------------------- R14.8
+    R8 = chk.rule("R14.8", "a re-link call `shape->SetGeomData(p)` can re-point the cached geometry pointer of every shape class it "
+                           "may be dispatched to: each override accepts its argument only through dynamic_cast<T*>, so the static "
+                           "type of p must be related (base or derived) to the T of every override below the receiver's static "
+                           "type (a lookup narrowed to NiTriBasedGeomData leaves a cloned NiLines pointing at the source's block)")
+    accepts = {}  # class -> T its SetGeomData override casts to
+    for fn in F.fns.values():
+        if fn.get("short") == "SetGeomData" and fn.get("cls") and fn.get("body") and fn.get("params"):
+            pid_ = fn["params"][0]["id"]
+            for n in walk(fn["body"]):
+                if n["k"] == "Cast" and n.get("ck") == "dynamic" and is_node(n.get("e")) and n["e"]["k"] == "Ref" and n["e"].get("id") == pid_:
+                    accepts[fn["cls"]] = (n.get("t") or "").replace("*", "").replace("const ", "").strip()
+    if len(accepts) < 4:
+        raise report.Broken("R14.8: fewer than 4 SetGeomData overrides with a dynamic_cast found (%s)" % sorted(accepts))
+    for fn in sorted(F.fns.values(), key=lambda f: f["id"]):
+        if fn.get("cls") != NIF or fn.get("tmpl") == "pattern":
+            continue
+        for n in walk(fn.get("body") or {}):
+            if not (n["k"] == "Call" and n.get("short") == "SetGeomData" and is_node(n.get("recv")) and n.get("args")):
+                continue
+            rt = (n["recv"].get("ct") or n["recv"].get("t") or "").replace("*", "").replace("const ", "").strip()
+            a = n["args"][0]
+            while is_node(a) and a["k"] == "Cast" and a.get("ck") != "dynamic":
+                a = a["e"]
+            at = ((a.get("ct") or a.get("t") or "") if is_node(a) else "").replace("*", "").replace("const ", "").strip()
+            if is_node(a) and a["k"] == "Call" and a.get("short") == "get":
+                at = at  # unique_ptr::get(): the pointee type is already the static type
+            if rt not in F.recs or at not in F.recs:
+                continue
+            for cls, t in sorted(accepts.items()):
+                if not F.derives_from(cls, rt):
+                    continue
+                ok = F.derives_from(t, at) or F.derives_from(at, t)
+                chk.instance(R8, ok=ok, sample={"fn": fn["name"], "receiver": rt, "argument": at, "override": cls, "accepts": t})
+                if not ok:
+                    chk.violation("R14.8", "C14/R14.8:%s:%s" % (fn["name"], cls), where(fn, n),
+                                  "%s re-links a `%s` with a `%s*`, which %s::SetGeomData (dynamic_cast<%s*>) can never accept: a "
+                                  "cloned %s keeps the geometry pointer copied from the source shape" %
+                                  (fn["name"], rt, at, cls, t, cls.split("::")[-1]))
+    chk.floor(R8, 8)
 
     # ---------------------------------------------------------------- R14.7
     chk.share(F, "c05", ["R5.1", "R5.2", "R5.5"], "R14.7",
